@@ -70,6 +70,17 @@ add("C16", "exploration",
     "Only parser-built ASTs are judged; equality is the derived PartialEq on Asm/Line.",
     "DESIGN.md 3/C16")
 
+add("C10", "model_checking",
+    "exhaustive enumeration of single operations (256 addresses x 256 values from 3 prior states) and of all 65 536 ordered write-address pairs, plus explicit-state BFS (depth 3/4) over a 129-operation alphabet on the real Bus, lock-step with a map-based reference",
+    "After every operation all 256 addresses are read and RAM, outputs, MICR key bit and the board are compared with REF-BUS; every read must leave the Bus value unchanged (PartialEq); writes to 0xF0-0xFF never change RAM, 0xEF/0xF0 boundary exact, input registers unaffected by writes, outputs only by 0xFE/0xFF.",
+    "Trusted: REF-BUS; the board behind 0xF0-0xF3 is the real Board on the reference side (C14 checks the board); UART/timer registers have no read-back and are only checked not to leak into anything observable.",
+    "DESIGN.md 3/C10")
+add("C14", "model_checking",
+    "explicit-state BFS (depth 3/4) over port writes and external setters on the real Bus/Board against REF-BOARD, states deduplicated on the bit-exact reference state; exhaustive enumeration of f32 bit patterns (2^22 quick, all 2^32 thorough) through the three analog setters; all 256 DAC bytes for the fan law",
+    "After every operation the status registers 0xF0-0xF3 and the getters named in the statement (stored voltages, DAC outputs, UIO directions, interrupt control) equal REF-BOARD: clamping incl. NaN/inf, DAC = byte/100, comparator bits, jumpers, direction-gated UIO pins, edge interrupts raised exactly on the configured transition of the selected source, flip-flop clearing, fan period = 255 - DAC1 byte.",
+    "Trusted: REF-BOARD written from the statement; frozen corners listed in refmodel/FROZEN.md (UOR drives status bits regardless of direction; FAN bit; flip-flop independent of IE). Fan rpm is not compared.",
+    "DESIGN.md 3/C14")
+
 NOT_YET = {}
 
 def main():
